@@ -17,7 +17,7 @@ RULE = (
     "holding every type, each followed by a pad field restoring the offset; executed through the generated Python module, "
     "the generated C in standard mode and in optimization mode (little-endian branch, and big-endian branch via "
     "-DBP_BIG_ENDIAN) at -O0 and -O2. C runtime: rt.c calls BpCopyBufferBits / BpEndecodeBaseType / BpEndecodeInt / "
-    "BpEndecodeArray (incl. the batch-copy widths) directly over the same space, little- and big-endian builds. Oracle: "
+    "BpEndecodeArray (capacities {1..9, 12, 16, 17, 33}, incl. the batch-copy widths) directly over the same space, little- and big-endian builds. Oracle: "
     "bit-list reference encoder / bit loop; decode returns the value with correct sign. evaluations = leaf cases (type, "
     "offset, position, value, target, direction); every enumerated point with width > 8 or offset != 0 is non-trivial and "
     "points are distinct by construction."
